@@ -48,6 +48,15 @@ var vhC13Corpus = []vhTpl{
 	{"escaped-before", []string{"a\\{% n %}", "b"}, []vhTag{{false, "x"}}},
 	{"escaped-between", []string{"a", "\\{{ n }}", "c"}, []vhTag{{true, "if x"}, {true, "endif"}}},
 	{"escaped-comment", []string{"a", "\\{# n #} b"}, []vhTag{{true, "set v = 1"}}},
+	// tags written without blanks inside the delimiters (content marked with a leading ~): the dash is
+	// a dash whatever follows it
+	{"tight-number", []string{"a", "b"}, []vhTag{{false, "~1"}}},
+	{"tight-float", []string{"a", "b"}, []vhTag{{false, "~1.5"}}},
+	{"tight-name", []string{"a", "b"}, []vhTag{{false, "~x"}}},
+	{"tight-string", []string{"a", "b"}, []vhTag{{false, "~'s'"}}},
+	{"tight-paren", []string{"a", "b"}, []vhTag{{false, "~(2)"}}},
+	{"tight-if", []string{"a", "T", "b"}, []vhTag{{true, "~if x"}, {true, "~endif"}}},
+	{"tight-set-number", []string{"a", "b", "c"}, []vhTag{{true, "~set v = 3"}, {false, "~v"}}},
 }
 
 func vhOpen(t vhTag, dash bool) string {
@@ -57,6 +66,9 @@ func vhOpen(t vhTag, dash bool) string {
 	}
 	if dash {
 		s += "-"
+	}
+	if len(t.content) > 0 && t.content[0] == '~' {
+		return s + t.content[1:]
 	}
 	return s + " " + t.content + " "
 }
